@@ -75,10 +75,14 @@ def r1(chk):
         for f in (False, True):
             chk.expect("R1", f"validate_struct_attrs[{k},{f}]", seen.get((k, f), 0) == 1, VALIDATE, fi.line, "trait-instruction rules not dispatched exactly once for this conversion", found=seen.get((k, f), 0))
     gs = {}
+    kind_names = set(kinds(repo))
     for c in common:
-        m = re.match(r"validate_ghost_attrs\((\w+), ([^,]+),", c)
-        if m:
-            gs[m.group(1)] = m.group(2)
+        if c.startswith("validate_ghost_attrs("):
+            args_ = [a.strip() for a in re.split(r",\s*(?![^()]*\))", c[len("validate_ghost_attrs("):-1])]
+            ks = [a for a in args_ if a in kind_names]
+            gv = [a for a in args_ if a.endswith(".ghosts_attrs")]
+            if len(ks) == 1:
+                gs[ks[0]] = gv[0] if gv else (args_[0] if args_ else "")
     for k in kinds(repo):
         chk.expect("R1", f"validate_ghost_attrs[{k}]", gs.get(k, "").endswith(".ghosts_attrs"), VALIDATE, fi.line, "ghosts rules not dispatched for this kind over all ghosts instructions", found=gs.get(k))
     # by-kind lists
@@ -421,6 +425,25 @@ def run(chk):
         import_lookup_contracts(chk, "R8", used, with_chain=False, desc="contracts of the instruction lookups that validation rules inspect (dedicated-then-default, per-kind filter)")
     chk.guard("R8", r8)
     chk.guard("R9", lambda: r9(chk))
+
+    def r10():
+        # the unterminated / conflicting trait-level repeat classes are raised by the repeat protocol itself (C14.R1): a new repeat() while a
+        # block is open is an error exactly when the instruction does not carry stop_repeat
+        from ..core import Check
+        from . import c14
+        sub = Check("C14", chk.repo, chk.tier)
+        sub.guard("R1", lambda: c14.r1(sub))
+        chk.rule("R10", "trait-level repeat misuse (new repeat() inside an open block without stop_repeat) is reported for every combination of the instruction's flags", floor=6)
+        for r_, why in sub.inconclusive:
+            if "get_data_type_attrs" in why:
+                chk.inconc("R10", why)
+        for i in sub.instances:
+            if i.rule == "R1" and i.key.startswith("get_data_type_attrs/Map["):
+                if i.ok:
+                    chk.ok("R10", "repeat:" + i.key, i.file, i.line)
+                else:
+                    chk.bad("R10", "repeat:" + i.key, i.file, i.line, i.what, i.expected, i.found)
+    chk.guard("R10", r10)
 
 
 # ---------------------------------------------------------------- R9: complete guard sets of the diagnostic emission sites
